@@ -45,6 +45,10 @@ type c03 struct {
 	c      *hx.Ctx
 	n      int
 	oracle map[string]bool
+	// set by the generator for the next decCase: the stream is a run of whole packets
+	// (truncComplete of them) followed by a proper, non-empty prefix of one more
+	truncated     bool
+	truncComplete int
 }
 
 // emitOracle walks the stream the naive way and records, for every candidate
@@ -142,6 +146,16 @@ func (x *c03) decCase(stream []byte, sizes []int, lim int64, endErr bool, sent [
 		}
 		x.c.Stat("direct_frames", 1)
 	}
+	// a stream that ends inside a packet: the packets before it, then ErrUnexpectedEOF — never a packet from the partial bytes
+	if x.truncated && !endErr && lim == 0 {
+		if len(got) != x.truncComplete || err != io.ErrUnexpectedEOF {
+			x.c.Emit("direct c03_truncation %d FAIL stream ends inside packet %d: got %d packets then %s", n, x.truncComplete, len(got), errKind(err))
+		} else {
+			x.c.Emit("direct c03_truncation %d ok", n)
+		}
+		x.c.Stat("direct_truncation", 1)
+	}
+	x.truncated = false
 	// refused before it is buffered: with a byte-at-a-time source, a limit error
 	// costs at most 5 bytes of the refused packet
 	if err == packet.ErrReadLimitExceeded && maxInt(sizes) == 1 {
@@ -249,9 +263,24 @@ func (x *c03) decoderCases() {
 		}
 		c.Stat("exhaustive_split_streams", 1)
 		// (B) truncation at every prefix, three chunkings each, EOF and a failing source
+		bounds := map[int]int{0: 0}
+		{
+			pos := 0
+			for i, p := range ps {
+				pos += p.Len()
+				bounds[pos] = i + 1
+			}
+		}
+		complete := 0
 		for k := 0; k < n; k++ {
 			pre := stream[:k]
+			if b, ok := bounds[k]; ok {
+				complete = b
+			}
+			_, atBoundary := bounds[k]
+			x.truncated, x.truncComplete = !atBoundary, complete
 			x.decCase(pre, oneChunk(k), 0, false, nil)
+			x.truncated, x.truncComplete = !atBoundary, complete
 			x.decCase(pre, randomSizes(r, k, 1), 0, s%2 == 0, nil)
 			x.decCase(pre, randomSizes(r, k, 3), int64(r.Intn(40)), s%3 == 0, nil)
 		}
@@ -401,6 +430,65 @@ func (x *c03) decoderCases() {
 	}
 }
 
+// hugePacket: a packet with a 4-byte remaining length (detection length 5), checked on the
+// implementation alone (too long for the extracted model's non-tail-recursive list functions)
+func (x *c03) hugePacket() {
+	c := x.c
+	x.n++
+	n := x.n
+	big := publishOfLen(c.Rng, 2097152+5+40)
+	ps := []packet.Generic{&packet.Pingreq{}, big, &packet.Puback{ID: 9}}
+	stream := concatPackets(ps)
+	for _, k := range []int{len(stream), 65536, 4096} {
+		r := &chunkReader{chunks: cut(stream, fixedSizes(len(stream), k)), end: io.EOF}
+		d := packet.NewDecoder(r)
+		var got []packet.Generic
+		var err error
+		for i := 0; i < 5; i++ {
+			var p packet.Generic
+			if p, err = d.Read(); err != nil {
+				break
+			}
+			got = append(got, p)
+		}
+		ok := len(got) == 3 && err == io.EOF
+		for i := 0; ok && i < 3; i++ {
+			ok = got[i].Len() == ps[i].Len() && got[i].Type() == ps[i].Type()
+		}
+		if ok {
+			c.Emit("direct c03_frames %d ok", n)
+		} else {
+			c.Emit("direct c03_frames %d FAIL packet with a 4-byte remaining length (%d bytes, chunks of %d): got %d packets then %s", n, big.Len(), k, len(got), errKind(err))
+		}
+		c.Stat("direct_frames", 1)
+	}
+	// and refused by a limit just below its size, byte-at-a-time header
+	r := &chunkReader{chunks: cut(stream[:7], []int{1, 1, 1, 1, 1, 1, 1}), end: io.EOF}
+	d := packet.NewDecoder(r)
+	d.SetReadLimit(int64(big.Len() - 1))
+	_, _ = d.Read()
+	_, err := d.Read()
+	if err != packet.ErrReadLimitExceeded || r.handed > 2+5 {
+		c.Emit("direct c03_limit_first %d FAIL 2 MB packet against limit-1: %s after %d bytes", n, errKind(err), r.handed)
+	} else {
+		c.Emit("direct c03_limit_first %d ok", n)
+	}
+	c.Stat("direct_limit_first", 1)
+}
+
+func fixedSizes(n, k int) []int {
+	var out []int
+	for n > 0 {
+		s := k
+		if s > n {
+			s = n
+		}
+		out = append(out, s)
+		n -= s
+	}
+	return out
+}
+
 func oneChunk(n int) []int {
 	if n == 0 {
 		return nil
@@ -415,6 +503,7 @@ func runC03(c *hx.Ctx) {
 		return
 	}
 	x.decoderCases()
+	x.hugePacket()
 	x.encoderCases()
 	x.connCases()
 	if c.Thorough() {
